@@ -91,7 +91,7 @@ def gen_history(rng, maxlen):
             plan.append(('put', p, t))
         elif r < 0.7:
             scope = rng.choice(['/', lay.home] + lay.vols)
-            reply = rng.choice(['0', '0,1', '1', '0-1', '', '2'])
+            reply = rng.choice(['0', '0,1', '1', '0-1', '', '2', '1-0', '2-1', '0,2-1'])       # a range typed backwards denotes nothing
             st = {'cmd': 'restore', 'argv': [scope, '--sort', rng.choice(['date', 'path'])], 'stdin': reply + '\n'}
             faulted = rng.random() < 0.15
             if faulted:
@@ -106,8 +106,22 @@ def gen_history(rng, maxlen):
         else:
             days = rng.choice([None, 0, 1, 2, 5])
             now = t + datetime.timedelta(seconds=1)
-            steps.append({'cmd': 'empty', 'argv': ([str(days)] if days is not None else []) + ['-f'], 'env': {'TRASH_DATE': now.strftime(FMT)}})
-            plan.append(('empty', days, now))
+            st = {'cmd': 'empty', 'argv': ([str(days)] if days is not None else []) + ['-f'], 'env': {'TRASH_DATE': now.strftime(FMT)}}
+            fresh = None
+            if rng.random() < 0.3:
+                # while trash-empty runs (right after its k-th removal) another trash-put completes in the home trash: a whole, brand-new
+                # entry.  Whatever trash-empty had listed before, that entry stays whole and is listed afterwards
+                fname = 'fresh%d' % k
+                fdate = now.strftime(FMT)
+                # (midfs: right after the k-th removal; midlib: right after the k-th library operation, e.g. between two listings)
+                st['plan'] = {rng.choice(['midfs', 'midlib', 'midlib']): {'after': 0, 'ops': [
+                    ['write', lay.home_trash + '/info/' + fname + '.trashinfo', scen.TI % (scen.quote('/was/' + fname), fdate)],
+                    ['write', lay.home_trash + '/files/' + fname, 'fresh payload']]}}
+                for kk, vv in st['plan'].items():
+                    vv['after'] = rng.choice([1, 1, 2, 3]) if kk == 'midfs' else rng.randint(2, 40)
+                fresh = (fname, fdate.replace('T', ' '), '/was/' + fname)
+            steps.append(st)
+            plan.append(('empty', days, now, fresh))
         steps.append({'cmd': 'list', 'argv': []})
         plan.append(('list',))
     return lay.scenario(steps, cwd='/', extra=nodes), plan
@@ -176,6 +190,17 @@ def judge(run, scn, plan, res, section='history'):
             else:
                 lim = now - datetime.timedelta(days=days)
                 bag = [(d, p) for d, p in bag if not datetime.datetime.strptime(d, '%Y-%m-%d %H:%M:%S') < lim]
+            fresh = pl[3] if len(pl) > 3 else None
+            if fresh:
+                td = scn['env'].get('XDG_DATA_HOME', scn['env'].get('HOME', '') + '/.local/share') + '/Trash'
+                info_p, pay_p = td + '/info/' + fresh[0] + '.trashinfo', td + '/files/' + fresh[0]
+                if info_p in o['after'] or pay_p in o['after']:
+                    if not (info_p in o['after'] and pay_p in o['after']):
+                        run.fail('oracle', 'an entry that another trash-put completed while trash-empty was running lost its payload or its info: '
+                                 'trash-empty purged half of an entry younger than anything it had decided about', dict(case, fresh=fresh),
+                                 key='fresh-entry-split', section=section)
+                        return
+                    bag.append((fresh[1], fresh[2]))
         else:
             got = parse_records(o['stdout'])
             if got != sorted(bag):
@@ -226,7 +251,12 @@ def replay(run, payload):
             plan.append(('rm', st['argv'][0]))
         elif st['cmd'] == 'empty':
             d = [a for a in st['argv'] if a.isdigit()]
-            plan.append(('empty', int(d[0]) if d else None, datetime.datetime.strptime(st['env']['TRASH_DATE'], FMT)))
+            fresh = None
+            for vv in (st.get('plan') or {}).values():
+                if isinstance(vv, dict) and vv.get('ops') and vv['ops'][0][0] == 'write':
+                    fname = os.path.basename(vv['ops'][1][1])
+                    fresh = (fname, st['env']['TRASH_DATE'].replace('T', ' '), '/was/' + fname)
+            plan.append(('empty', int(d[0]) if d else None, datetime.datetime.strptime(st['env']['TRASH_DATE'], FMT), fresh))
         else:
             plan.append(('list',))
     judge(run, scn, plan, res)
